@@ -73,7 +73,7 @@ KEYWORDS = {
     'exists', 'insert', 'into', 'values', 'update', 'set', 'create', 'table', 'view', 'primary', 'key',
     'unique', 'check', 'default', 'references', 'foreign', 'order', 'by', 'group', 'distinct', 'with',
     'cast', 'asc', 'desc', 'pragma', 'true', 'false', 'inner', 'cross', 'left', 'limit', 'having',
-    'between', 'like', 'case', 'when', 'then', 'else', 'end', 'delete', 'union', 'all', 'if',
+    'between', 'like', 'case', 'when', 'then', 'else', 'end', 'delete', 'union', 'all', 'if', 'except', 'intersect',
 }
 
 
@@ -213,9 +213,10 @@ class Parser:
             return ('create_table', name, cols, cons)
         if self.accept_kw('view'):
             name = self.ident()
+            cols = self.name_list() if self.peek() == ('op', '(') else None
             self.expect_kw('as')
             sel = self.select_stmt()
-            return ('create_view', name, sel)
+            return ('create_view', name, sel, cols)
         raise ShimGap('SQL: CREATE %r' % (self.peek(),))
 
     def column_def(self):
@@ -334,6 +335,23 @@ class Parser:
                 ctes.append((name, sel))
                 if not self.accept('op', ','):
                     break
+        first = self.select_core()
+        parts = []
+        while True:
+            op = self.accept_kw('except', 'union', 'intersect')
+            if not op:
+                break
+            if op == 'union' and self.accept_kw('all'):
+                op = 'union all'
+            parts.append((op, self.select_core()))
+        order = self.order_by()
+        if self.accept_kw('limit'):
+            raise ShimGap('SQL: LIMIT')
+        if parts:
+            return ('compound', ctes, first, parts, order)
+        return ('select', ctes) + first + (order,)
+
+    def select_core(self):
         self.expect_kw('select')
         distinct = bool(self.accept_kw('distinct'))
         self.accept_kw('all')
@@ -382,6 +400,9 @@ class Parser:
                 group.append(self.expr())
         if self.accept_kw('having'):
             raise ShimGap('SQL: HAVING')
+        return (distinct, items, sources, where, group)
+
+    def order_by(self):
         order = None
         if self.accept_kw('order'):
             self.expect_kw('by')
@@ -396,15 +417,19 @@ class Parser:
                 order.append((e, desc))
                 if not self.accept('op', ','):
                     break
-        if self.accept_kw('limit'):
-            raise ShimGap('SQL: LIMIT')
-        if self.accept_kw('union'):
-            raise ShimGap('SQL: UNION')
-        return ('select', ctes, distinct, items, sources, where, group, order)
+        return order
 
     def table_ref(self):
         if self.accept('op', '('):
-            raise ShimGap('SQL: subquery in FROM')
+            sel = self.select_stmt()
+            self.expect('op', ')')
+            alias = None
+            if self.accept_kw('as'):
+                alias = self.ident()
+            elif self.peek()[0] == 'id':
+                alias = self.next()[1]
+            self._anon = getattr(self, '_anon', 0) + 1
+            return (('subquery', sel), alias or '(subquery %d)' % self._anon)
         name = self.ident()
         alias = None
         if self.accept_kw('as'):
@@ -905,6 +930,7 @@ class Database:
         self.tables = {}
         self.views = {}
         self.foreign_keys = False
+        self.view_columns = {}
         self.log = []          # statements executed (kind, table)
         self.journal = None
 
@@ -920,6 +946,7 @@ class Database:
             t2.rows = [dict(r) for r in t.rows]
             d.tables[n] = t2
         d.views = dict(self.views)
+        d.view_columns = dict(self.view_columns)
         d.foreign_keys = self.foreign_keys
         return d
 
@@ -1003,7 +1030,7 @@ class Cursor:
         stmts = parse(sql)
         if len(stmts) != 1:
             raise ProgrammingError('You can only execute one statement at a time.')
-        if stmts[0][0] == 'select':
+        if stmts[0][0] in ('select', 'compound'):
             raise ProgrammingError('executemany() can only execute DML statements.')
         for params in seq:
             self._run(stmts[0], params)
@@ -1050,7 +1077,7 @@ class Cursor:
             env_params = ({i: adapt(v) for i, v in enumerate(plist)}, {})
             self._nparams = len(plist)
         ctx = Ctx(self.db, env_params)
-        if kind == 'select':
+        if kind in ('select', 'compound'):
             cols, rows = ctx.select(st, None)
             self._rows = [tuple(out_value(v) for v in r) for r in rows]
             self.description = [(c,) + (None,) * 6 for c in cols]
@@ -1070,6 +1097,9 @@ class Cursor:
                 raise OperationalError('view %s already exists' % st[1])
             self.conn._begin()
             self.db.views[st[1]] = st[2]
+            if len(st) > 3 and st[3]:
+                self.db.view_columns = dict(getattr(self.db, 'view_columns', {}))
+                self.db.view_columns[st[1]] = list(st[3])
             self.db.log.append(('create_view', st[1]))
         elif kind == 'insert_values':
             self.conn._begin()
@@ -1242,6 +1272,11 @@ class Ctx:
 
     # ---- SELECT ----------------------------------------------------------------------------
     def source_rows(self, name):
+        if isinstance(name, tuple) and name[0] == 'subquery':
+            sub = Ctx(self.db, (self.pos, self.named))
+            sub.ctes = dict(self.ctes)
+            cols, rows = sub.select(name[1], None)
+            return cols, [dict(zip(cols, r)) for r in rows]
         if name in self.ctes:
             cols, rows = self.ctes[name]
             return cols, [dict(zip(cols, r)) for r in rows]
@@ -1251,6 +1286,11 @@ class Ctx:
         if name in self.db.views:
             sub = Ctx(self.db, ({}, {}))
             cols, rows = sub.select(self.db.views[name], None)
+            declared = getattr(self.db, 'view_columns', {}).get(name)
+            if declared:
+                if len(declared) != len(cols):
+                    raise OperationalError('expected %d columns for %r but got %d' % (len(declared), name, len(cols)))
+                cols = list(declared)
             return cols, [dict(zip(cols, r)) for r in rows]
         if name == 'sqlite_master':
             cols = ['type', 'name', 'tbl_name', 'rootpage', 'sql']
@@ -1260,14 +1300,64 @@ class Ctx:
         raise OperationalError('no such table: %s' % name)
 
     def select(self, st, outer):
-        _, ctes, distinct, items, sources, where, group, order = st
         saved = dict(self.ctes)
         try:
-            for name, sel in ctes:
+            for name, sel in st[1]:
                 self.ctes[name] = self.select(sel, outer)
+            if st[0] == 'compound':
+                return self._compound(st[2], st[3], st[4], outer)
+            _, ctes, distinct, items, sources, where, group, order = st
             return self._select(distinct, items, sources, where, group, order, outer)
         finally:
             self.ctes = saved
+
+    def _compound(self, first, parts, order, outer):
+        """EXCEPT / UNION / INTERSECT: set semantics on whole rows (UNION ALL keeps duplicates);
+        ORDER BY may name an output column of the first SELECT or a position."""
+        def same(r, q):
+            return all(same_key(a, b) for a, b in zip(r, q))
+
+        def dedup(rows):
+            out = []
+            for r in rows:
+                if not any(same(r, u) for u in out):
+                    out.append(r)
+            return out
+        colnames, rows = self._select(*first, None, outer)
+        rows = list(rows)
+        for op, core in parts:
+            c2, r2 = self._select(*core, None, outer)
+            if len(c2) != len(colnames):
+                raise OperationalError('SELECTs to the left and right of %s do not have the same number of result columns' % op.upper())
+            if op == 'union all':
+                rows = rows + list(r2)
+            elif op == 'union':
+                rows = dedup(rows + list(r2))
+            elif op == 'except':
+                rows = [r for r in dedup(rows) if not any(same(r, q) for q in r2)]
+            else:
+                rows = [r for r in dedup(rows) if any(same(r, q) for q in r2)]
+        if order:
+            idx = []
+            for e, desc in order:
+                if e[0] == 'col' and e[1] is None and e[2] in colnames:
+                    idx.append((colnames.index(e[2]), desc))
+                elif e[0] == 'lit' and isinstance(e[1], int):
+                    idx.append((e[1] - 1, desc))
+                else:
+                    raise ShimGap('SQL: ORDER BY expression after a compound SELECT')
+
+            def cmp(a, b):
+                for i, desc in idx:
+                    c = order_cmp(a[i], b[i])
+                    if c:
+                        return -c if desc else c
+                return 0
+            rows.sort(key=functools.cmp_to_key(cmp))
+        elif any(op != 'union all' for op, _ in parts):
+            # sqlite evaluates these through a sorted temporary index: rows come out in key order
+            rows.sort(key=functools.cmp_to_key(lambda a, b: next((c for c in (order_cmp(x, y) for x, y in zip(a, b)) if c), 0)))
+        return colnames, rows
 
     def _select(self, distinct, items, sources, where, group, order, outer):
         # FROM / JOIN: left-deep nested loops
